@@ -22,7 +22,11 @@ def run(ctx):
     for k in KINDS:
         params = D.small_params(k)
         if q:
-            params = [params[i] for i in sorted(ctx.rng.sample(range(len(params)), 4))]
+            # one configuration per pair of thresholds (the inverted orders included), the sample-count parameter at random
+            groups = {}
+            for p in params:
+                groups.setdefault(tuple(sorted((a, b) for a, b in p.items() if a not in ("n_threshold", "window_size"))), []).append(p)
+            params = [ctx.rng.choice(g) for _, g in sorted(groups.items())]
         traces = pmap(D.run, [(k, p, s) for p in params for s in D.all_sequences(n)])
         ctx.validate(k, traces, "%s all 2^%d sequences x %d configurations" % (k, n, len(params)),
                      sabotage=D.sabotage, replay=replayer(traces))
